@@ -110,12 +110,12 @@ impl Property for C01 {
             },
             Phase::Random {
                 name: "constructed",
-                cases: tier.pick(60_000, 5_000_000),
+                cases: tier.pick(250_000, 5_000_000),
                 strat: Arc::new(|| raw::raw_package(false).prop_map(PkgCase::Raw).boxed()),
             },
             Phase::Random {
                 name: "constructed-mutated",
-                cases: tier.pick(15_000, 1_000_000),
+                cases: tier.pick(60_000, 1_000_000),
                 strat: Arc::new(|| {
                     (raw::raw_package(false), proptest::collection::vec(crate::gen::mutate::mutation(), 1..3))
                         .prop_map(|(pkg, muts)| PkgCase::RawMutated { pkg, muts })
@@ -124,7 +124,7 @@ impl Property for C01 {
             },
             Phase::Random {
                 name: "pool-mutated",
-                cases: tier.pick(25_000, 2_000_000),
+                cases: tier.pick(100_000, 2_000_000),
                 strat: Arc::new(|| mutated_pool(40_000, 3)),
             },
         ]
